@@ -25,6 +25,7 @@ import (
 	"github.com/pkg/errors"
 	metav1 "k8s.io/apimachinery/pkg/apis/meta/v1"
 	"k8s.io/apimachinery/pkg/labels"
+	"k8s.io/apimachinery/pkg/types"
 	"k8s.io/client-go/tools/cache"
 	"k8s.io/klog/v2"
 	"k8s.io/utils/clock"
@@ -53,6 +54,10 @@ type CronWorker struct {
 	schedule *cronschedule.Schedule
 	handler  EnqueueHandler
 	mu       sync.Mutex
+
+	// initialized contains the JobConfigs that were evaluated when the schedule
+	// was initialized. Their add events must not make them start afresh.
+	initialized map[types.UID]struct{}
 }
 
 // EnqueueHandler knows how to enqueue a JobConfig to be created.
@@ -89,6 +94,10 @@ func (w *CronWorker) Init() error {
 	}
 
 	w.schedule = sched
+	w.initialized = make(map[types.UID]struct{}, len(jobConfigs))
+	for _, jobConfig := range jobConfigs {
+		w.initialized[jobConfig.UID] = struct{}{}
+	}
 	return nil
 }
 
@@ -217,6 +226,13 @@ flushUpdated:
 		case jobConfig := <-w.addedConfigs:
 			flushes++
 			if w.schedule.Has(jobConfig) {
+				continue
+			}
+
+			// Already evaluated on initialization, which bounds the first schedule
+			// time by when the JobConfig was last scheduled or updated. If it has no
+			// next schedule time, that is the outcome of that evaluation.
+			if _, ok := w.initialized[jobConfig.UID]; ok {
 				continue
 			}
 			jobConfig = w.getCurrent(jobConfig)
